@@ -110,10 +110,11 @@ def cases(tier, seed):
                         continue
                     out.append({"kind": "sequence", "rep": rep, "lengths": lengths, "N": N, "G": G, "first": a, "second": b,
                                 "name": f"[{a}; {b}] on one object == {b} on a fresh one/{rep} {ln},G={G}", "witness": a == "transform_sum" and b == "sum"})
-    if tier == "thorough":
+    if True:
         for lengths in lays[:1]:
             ln = "+".join(map(str, lengths))
-            for a, b, c in itertools.product(("transform_sum", "unify(keep_chunked)", "cumsum"), ("sum", "unify", "ikey_count(cached)"), ("transform_max", "count_ikey", "sum")):
+            triples = list(itertools.product(("transform_sum", "unify(keep_chunked)", "cumsum"), ("sum", "unify", "ikey_count(cached)"), ("transform_max", "count_ikey", "sum")))
+            for a, b, c in (triples if tier == "thorough" else triples[::5]):
                 out.append({"kind": "sequence", "rep": "chunked+pointers", "lengths": lengths, "N": N, "G": G, "first": a, "middle": b, "second": c,
                             "name": f"[{a}; {b}; {c}] on one object == {c} on a fresh one/chunked+pointers {ln},G={G}"})
     for rep in (REPS if tier == "thorough" else REPS[1:]):
